@@ -24,7 +24,7 @@ for _p, _t in [
  ("C05", "_contains of every primitive: one truth value per row; interior membership <=> the closed set (each point against its own parameter row); boundary membership accepts exact boundary points and rejects beyond the isclose tolerance band."),
  ("C10", "volume() = analytic measure (pi symbolic) per parameter row, positive for both orientations, boundary measures; density sampling returns exactly ceil(density*measure) rows (at most 2*ceil for the rejection-based triangle)."),
  ("C18", "bounding_box(): flat [min,max] per axis, encloses every point of every supplied parameter row (min/max over rows by their defining axioms), tight for one row."),
- ("C06", "normal(): row count, unit length, finiteness (non-zero divisors) and first-order outwardness at every exact boundary point for Interval, Circle, Sphere boundaries."),
+ ("C06", "normal(): row count, unit length, finiteness (non-zero divisors) and first-order outwardness at every exact boundary point for Interval, Circle, Sphere boundaries and (constant shapes, both orientations, modular: _get_normal_direction under its own contract, ghost un-normalised sum, pure normalisation lemma) ParallelogramBoundary. Triangle normals and the normals of Boolean boundaries are NOT under contract."),
 ]:
     CLAIMED[_p] = dict(cat="proof", sec="DESIGN 4/" + _p, text=_t, note=GEO_NOTE, tech="contract-based deductive verification: VCs generated from the AST of the real source by a symbolic interpreter (tpv), discharged by z3 (nlsat on a sound QF_NRA weakening, cvc5 as second back end)")
 
